@@ -22,6 +22,9 @@ PROPS = {
     "C13": {"jobs": [{"pkg": "conc", "run": "^TestC13Coop$", "checks_quick": 4000, "checks_thorough": 8000, "shards_thorough": 12},
                      {"pkg": "conc", "run": "^TestC13Free$", "race": True, "wal": True, "checks_quick": 250, "checks_thorough": 1500, "shards_quick": 4, "shards_thorough": 8}],
             "timeout_quick": 1200},
+    "C14": {"jobs": [{"pkg": "conc", "run": "^TestC14Coop$", "checks_quick": 5000, "checks_thorough": 10000, "shards_thorough": 12},
+                     {"pkg": "conc", "run": "^TestC14Free$", "race": True, "wal": True, "checks_quick": 250, "checks_thorough": 1500, "shards_quick": 4, "shards_thorough": 8}],
+            "timeout_quick": 1200},
     "C15": {"jobs": [{"pkg": "iter", "run": "^TestC15$", "checks_quick": 4000, "checks_thorough": 6000, "shards_thorough": 16}]},
     "C17": {"jobs": [{"pkg": "load", "run": "^TestC17$", "checks_quick": 1500, "checks_thorough": 600, "shards_thorough": 16}]},
     "C18": {"jobs": [{"pkg": "codec", "run": "^TestC18$", "checks_quick": 3000, "checks_thorough": 5000, "shards_thorough": 16}]},
@@ -30,7 +33,7 @@ PROPS = {
 
 PROPS["C20"] = {"jobs": [{"pkg": "keys", "run": "^TestC20$", "checks_quick": 1500, "checks_thorough": 2500, "shards_thorough": 16}]}
 
-HOOK_COMMITS = ["0049d5e", "3ca7037"]
+HOOK_COMMITS = ["0049d5e", "3ca7037", "66fb88e"]
 
 # Manifest metadata per claimed property.
 META = {
@@ -74,6 +77,36 @@ META = {
         "text": "Generated entries/manifests: stored bytes must equal the harness's own canonical encoder and hash to the CID; read-back equals the written entry field by field (default and link-key codecs); re-encoding the decoded entry gives the same CID; rebuilt-from-scratch values give identical bytes; the run digest is identical in a second process; 22 pinned interop vectors (v2/v1/v0) are recomputed bit-exact and legacy blocks decode to the fixture fields. Exploration.",
         "note": "Reference encoder written from the observed wire format + RFC 7049 canonical rules; 'any process' sampled as two processes.",
     },
+    "C09": {
+        "technique": "property-based testing (rapid) over generated log states x four loaders x concurrency x generated block-arrival orders (gated in-memory store + completion-order controller); oracle = set model / reference sort",
+        "text": "Generated histories (forks, skip references, two codecs) are reloaded through each loader under generated fetch concurrency and generated completion orders of the outstanding block reads; the loaded log must equal the model (id, entry set, heads, values). Exploration.",
+        "note": "Completion orders come from a polling controller: every realised order is legal, reproducibility of a schedule-dependent failure relies on the recorded order stored in the replay file.",
+    },
+    "C10": {
+        "technique": "property-based testing (rapid): bounded loads vs cardinality / membership / recency oracle from the registry, metamorphic comparison across three generated schedules",
+        "text": "Generated logs x loaders (incl. arbitrary supplied entries and entry hashes) x limits 0..size+3 x three executions with different concurrency and completion order: |result| == min(max(n,k),size), supplied ⊆ result, nothing excluded strictly newer than an included non-supplied entry, same result set across the executions. Exploration. Found and repaired three loader defects.",
+        "note": "Ties in (time, clock id) may resolve either way; set equality across schedules asserted only without such ties.",
+    },
+    "C11": {
+        "technique": "property-based testing (rapid) with fault injection: generated fault plans, exclusion sets, concurrency and completion orders; oracle = graph reachability in the harness registry + read log of the store",
+        "text": "Generated DAGs with absent / failing / undecodable / wrong-shape / stalling / slow blocks, exclusions, duplicated and unknown start hashes: the fetch must return (exact quiescence-based hang detection with goroutine dump), return no entry twice, never read an excluded hash or a hash twice, and return exactly the entries reachable through healthy non-excluded entries (⊆ under stalls). Exploration.",
+        "note": "Liveness is observed, not proved; wall-clock time bounds are not asserted.",
+    },
+    "C12": {
+        "technique": "structured property-based generation (rapid) of schema-deviating CBOR/JSON blocks + native coverage-guided fuzzing (go test -fuzz) of raw bytes; oracle = no panic under recover() in any decoder/accessor + healthy remainder loads",
+        "text": "Every field of the entry/manifest/legacy shapes is deleted, nulled or replaced by values of every kind (or same-kind adversarial content); all three codecs' decoders and, on success, every accessor/comparison/verification/re-encoding and a log built over the entry are exercised under recover(); a healthy signed chain naming the block must load completely. Thorough tier adds a 4-minute native fuzz campaign over raw bytes seeded with valid blocks and hostile constants. Exploration. Found and repaired two nil dereferences.",
+        "note": "A block that decodes counts as an entry; panics on library goroutines are only attributable through the write-ahead case file.",
+    },
+    "C13": {
+        "technique": "generated concurrent programs under (E1) a cooperative lock-aware scheduler driven by generated interleavings (build-tag hooks, exact deadlock detection) and (E2) free-running goroutines under the Go race detector",
+        "text": "2-4 threads x 1-3 operations on one shared log (appends, merges in incl. invalid and bounded ones, all read accessors, publication, identity change): E1 explores interleavings at every lock boundary and inside critical sections and checks append chain / completion order / per-read structural clauses / final model equality; E2 runs the same programs with -race. Exploration; E2 is statistical. Found and repaired three data races.",
+        "note": "Hook granularity bounds E1; the race detector only sees executions that happened.",
+    },
+    "C14": {
+        "technique": "generated concurrent multi-log programs under the cooperative scheduler (exact deadlock detection, per-unlock structural invariant, snapshot-linearisation oracle) and free-running under -race with a lock-aware watchdog",
+        "text": "2-4 threads of X.Join(Y) / X.Append over 2-3 logs: at every write-unlock the log must be structurally sound and a Join's result must equal destination ∪ S for a state S the source really had during the call; no schedule may deadlock. Exploration. Found and repaired the cross-merge deadlock and the torn source snapshot.",
+        "note": "Interleavings at hook granularity; states of the source are recorded at its write-unlocks.",
+    },
     "C15": {
         "technique": "property-based testing (rapid): iterator output vs reference (descending reference sort of the registry's causal past, cut at the lower bound, first/last amount)",
         "text": "Generated forked logs and every option combination (multi LTE related or not, LT, unknown bounds, GTE/GT inside the range, amounts 0..size+3); exact comparison when the ordering is strict-total on the range, order-free clauses otherwise; channel must be closed on success; no panic. Exploration. Found and repaired three defects.",
@@ -84,6 +117,12 @@ META = {
         "text": "Generated pairs of logs and bounds 0..total+3; result must be the last min(n,total) of the reference sort (exact when strict-total), heads the unreferenced among them, and n >= total identical to the unbounded merge of a twin. Exploration. Found and repaired the n > total panic.",
         "note": "Same trusted base as C01.",
     },
+    "C17": {
+        "technique": "property-based generation of histories + exhaustive enumeration of block-write prefixes (crash points) per history, with injected write failures; loads from truncated store views",
+        "level": "fault_enumeration",
+        "text": "For every generated history over one shared store, EVERY write prefix is checked for causal closure (entries name only earlier blocks, manifests only stored heads), every value ever returned (append hash, manifest CID) is loaded from the prefix that existed at return time and from later prefixes (all of them in the thorough tier) and must reproduce the state at that moment; injected write failures must surface as errors and leave no trace. Crash points are enumerated exhaustively per history; histories are generated.",
+        "note": "Block writes are atomic in the fake store; replicas share one store as in the statement.",
+    },
     "C18": {
         "technique": "property-based testing (rapid): stored bytes scanned for every binary/textual form of each link; round-trip with same / absent / different keys",
         "text": "Generated link-encrypted entries and small logs: no form of any predecessor/reference/earlier block appears in the stored bytes and the block has no traversable links; same-key readers recover identical lists, verify, merge and load; no-key / other-key readers get no links. Exploration.",
@@ -93,5 +132,10 @@ META = {
         "technique": "property-based testing (rapid): order laws checked on all pairs/triples of generated entry pools; sort checked as metamorphic relation over generated permutations",
         "text": "Generated-input exploration: every ordered pair and triple of rapid-generated pools of synthetic entries (equal/unequal times, ids with prefix relations, distinct hashes) is checked against irreflexivity, antisymmetry, transitivity, totality, causality (smaller time first), FWW == -LWW, and every sorter is checked to be deterministic over shuffles, a permutation of its input and ordered. Pure functions, so tens of thousands of pools per run; no proof of the laws for all inputs.",
         "note": "Assumes non-negative clock times <= 2^62 (Lamport times); trusts Go's sort.SliceStable and the harness's re-statement of the laws.",
+    },
+    "C20": {
+        "technique": "stateful model-based property testing (rapid): generated create/get/has/reopen/burst/identity sequences over 1-3 keystores sharing a datastore vs a map model; signature relations verified with independent libp2p calls",
+        "text": "Key presence and identity must agree with a map model across instances, reopen and LRU eviction (bursts of 130-300 keys); identities created twice are identical and their two signatures and entry signatures verify under the stated keys and messages. Exploration. Found and repaired HasKey's false negatives.",
+        "note": "Ids are datastore-key-normal; create only for absent ids.",
     },
 }
